@@ -38,6 +38,7 @@ func c01(c *core.Check) {
 	r14 := c.Rule("R14", "the depth of the SVG tree is bounded where the tree is built: the recursive builder of newSVGContext passes its depth parameter on incremented and recurses only below a constant depth (every other recursive function of the package walks the tree it returns)", 1)
 	depthParamRule(c, r14)
 	c01AtomicInlines(c)
+	c01NilImplementations(c)
 
 	p := c.Prog
 	r4 := c.Rule("R4", "no nil dereference the code itself anticipates: every method call through ComputedStyle.parentStyle (nil on the root element) is dominated by a nil / root test; no comma-ok type assertion to a pointer or interface discards its ok result and then dereferences the value without a nil test (module-wide)", 6)
